@@ -9,7 +9,7 @@ ID = "C01"
 TITLE = "Every selector returns a consistent set of distinct, valid indices"
 TECHNIQUE = 'Hypothesis PBT over selector configurations and warm-start histories; invariant oracle over the public state with recorded scores'
 LEVEL = 'Generated-input exploration of the state invariant after every successful fit (distinct in-range indices, counts, threshold semantics judged on the scores the selector actually saw, every derived view) across all selector classes, directions, request forms, initialisations, thresholds and warm-start chains. No absence claim: strength = the counted distinct non-trivial cases in the evidence.'
-BUDGET = {"quick": 900, "thorough": 15000}
+BUDGET = {"quick": 900, "thorough": 30000}
 RULE = ("Cases: selector class in {FPS, CUR, PCovFPS, PCovCUR} x {feature, sample} and VoronoiFPS; X of "
         "kinds generic/lattice/eighths/lowrank/dup/clustered/scaled, 2..12 x 2..10 (thorough: to 40 x 24); "
         "y optional (required for PCov*); n_to_select None/int/float; initialisation int/'random'/list/ndarray; "
